@@ -77,6 +77,13 @@ func (i *fakeInformer) AddEventHandlerWithResyncPeriod(h kcache.ResourceEventHan
 
 func (i *fakeInformer) RemoveEventHandler(h kcache.ResourceEventHandlerRegistration) error {
 	i.c.y.yield("informer.RemoveEventHandler " + i.gvk.Kind)
+	i.c.mu.Lock()
+	if i.c.failRemove[i.gvk] > 0 {
+		i.c.failRemove[i.gvk]--
+		i.c.mu.Unlock()
+		return fmt.Errorf("injected: cannot remove event handler for %s", i.gvk.Kind)
+	}
+	i.c.mu.Unlock()
 	i.mu.Lock()
 	defer i.mu.Unlock()
 	r, ok := h.(*registration)
@@ -110,10 +117,14 @@ type fakeCache struct {
 	mu      sync.Mutex
 	infs    map[schema.GroupVersionKind]*fakeInformer
 	nextReg int
+	// failGet[gvk] > 0: that many next GetInformer calls for the kind fail (a cache that cannot sync, a
+	// kind whose CRD is gone). failRemove likewise for RemoveEventHandler.
+	failGet    map[schema.GroupVersionKind]int
+	failRemove map[schema.GroupVersionKind]int
 }
 
 func newFakeCache(s *runtime.Scheme, y *sched) *fakeCache {
-	return &fakeCache{scheme: s, y: y, infs: map[schema.GroupVersionKind]*fakeInformer{}}
+	return &fakeCache{scheme: s, y: y, infs: map[schema.GroupVersionKind]*fakeInformer{}, failGet: map[schema.GroupVersionKind]int{}, failRemove: map[schema.GroupVersionKind]int{}}
 }
 
 func gvkOf(obj client.Object) schema.GroupVersionKind {
@@ -125,6 +136,10 @@ func (c *fakeCache) GetInformer(_ context.Context, obj client.Object, _ ...cache
 	c.y.yield("cache.GetInformer " + gvk.Kind)
 	c.mu.Lock()
 	defer c.mu.Unlock()
+	if c.failGet[gvk] > 0 {
+		c.failGet[gvk]--
+		return nil, fmt.Errorf("injected: cannot get informer for %s", gvk.Kind)
+	}
 	i, ok := c.infs[gvk]
 	if !ok {
 		i = &fakeInformer{c: c, gvk: gvk, regs: map[*registration]bool{}}
